@@ -603,7 +603,7 @@ def rewrites():
         ns = {}
         exec(open(p).read(), ns)
         for name, edits in ns['VARIANTS'].items():
-            ed = [(rel, E.replace(old, new, 1)) for rel, old, new in edits]
+            ed = [(rel, E.replace_first(old, new)) for rel, old, new in edits]
             if name.startswith('M-'):
                 mu.append({'id': 'rw-%s' % name[2:], 'kind': 'mutant', 'edits': ed})
             else:
